@@ -588,8 +588,19 @@ func (e *Exec) evalInvNamed(fr *frame, spec *LoopSpec, li *loopInfo, k string, s
 		unsupported("invariant function %s missing", name)
 	}
 	args := make([]*smt.Term, len(f.Params))
+	nContract := len(con.Params)
+	if con.Recv != nil {
+		nContract++
+	}
 	for i, p := range f.Params {
-		a := e.findLocal(fr, p.Name(), li)
+		var a *ssa.Alloc
+		if i < nContract {
+			// a parameter of the function under contract, even if a loop variable shadows its name
+			a = e.paramCell(fr, p.Name())
+		}
+		if a == nil {
+			a = e.findLocal(fr, p.Name(), li)
+		}
 		if a == nil {
 			// hidden loop-carried registers (range loops): bound by phi comment
 			var found *smt.Term
@@ -615,6 +626,23 @@ func (e *Exec) evalInvNamed(fr *frame, spec *LoopSpec, li *loopInfo, k string, s
 	res, _ := e.inlineCall(tmp, f, args, nil, nil)
 	e.spec--
 	return res
+}
+
+// paramCell: the cell the naive form stores the named parameter into at function entry.
+func (e *Exec) paramCell(fr *frame, name string) *ssa.Alloc {
+	for _, p := range fr.fn.Params {
+		if p.Name() != name || p.Referrers() == nil {
+			continue
+		}
+		for _, r := range *p.Referrers() {
+			if st, ok := r.(*ssa.Store); ok && st.Val == p {
+				if a, ok := st.Addr.(*ssa.Alloc); ok {
+					return a
+				}
+			}
+		}
+	}
+	return nil
 }
 
 // findLocal finds the Alloc of the named source variable (params, results, locals).
